@@ -143,18 +143,50 @@ def exc_class(e):
   return type(e).__name__
 
 
+class PollCapExceeded(Exception):
+  """The client polled an operation more than POLL_CAP times (logical steps, not wall clock)."""
+
+
+POLL_CAP = 25
+
+
+class _CountingClock:
+  """Stands in for the `time` module inside vizier_client: back-off sleeps are
+  counted instead of slept, and a client that keeps polling is cut off."""
+
+  def __init__(self, real):
+    self._real = real
+    self.polls = 0
+
+  def __getattr__(self, name):
+    return getattr(self._real, name)
+
+  def sleep(self, secs):
+    del secs
+    self.polls += 1
+    if self.polls > POLL_CAP:
+      raise PollCapExceeded()
+
+
 def run_program(ops, owner):
   """Runs the client program against the currently configured deployment."""
   from vizier import pyvizier as vz
   from vizier._src.service import clients
+  from vizier._src.service import vizier_client
   from vv import service as S
   trace = []
   study = None
+  real_time = vizier_client.time._real if isinstance(vizier_client.time, _CountingClock) else vizier_client.time
+  clock = _CountingClock(real_time)
+  vizier_client.time = clock
 
   def rec(op, fn):
+    clock.polls = 0
     try:
       out = fn()
       trace.append([op['k'], 'ok', out])
+    except PollCapExceeded:
+      trace.append([op['k'], 'exc', 'POLLS-FOREVER'])
     except Exception as e:  # pylint: disable=broad-except
       trace.append([op['k'], 'exc', exc_class(e)])
 
@@ -235,6 +267,7 @@ def run_program(ops, owner):
         return {'algo': str(c.algorithm), 'params': sorted(p.name for p in c.search_space.parameters),
                 'md': sorted((list(ns), kk, str(v)) for ns, kk, v in c.metadata.all_items())}
       rec(op, f)
+  vizier_client.time = real_time
   return trace
 
 
@@ -325,6 +358,9 @@ def check_promises(ctx, trace, ops, dep, case):
   for op, (k, status, out) in zip(ops, trace):
     if status == 'skipped':
       continue
+    if status == 'exc' and out == 'POLLS-FOREVER':
+      ctx.violation(f'client-polls-forever:{k}:{dep.split("-")[0]}',
+                    f'{dep}: {k} polled an unfinished operation more than {POLL_CAP} times', case)
     if k in ('suggest', 'trials') and status == 'ok':
       known_ids.update(t['id'] for t in out)
     if k in ('add_trial', 'request') and status == 'ok':
